@@ -339,6 +339,74 @@ func c17LoadCase(c *CaseCtx) *CaseResult {
 				}
 			}
 		}
+		// the same files loaded AGAIN in this process after an edit that keeps a file's size and modification time
+		// (rsync -t, cp -p, a rollback by rename): the result is what the files say now
+		func() {
+			type stamp struct {
+				size int64
+				mod  time.Time
+			}
+			before := map[string]stamp{}
+			for _, f := range files {
+				if st, err := os.Stat(filepath.Join(root, f.rel)); err == nil {
+					before[f.rel] = stamp{st.Size(), st.ModTime()}
+				}
+			}
+			var editedPipe, editedTask, editedFile string
+			var want definition.PipelineDef
+		search:
+			for _, f := range files {
+				for n, p := range f.pipes {
+					for tn, td := range p.Tasks {
+						if len(td.Script) == 0 || len(td.Script[0]) == 0 {
+							continue
+						}
+						line := td.Script[0]
+						last := line[len(line)-1]
+						if !(last >= 'a' && last <= 'y') {
+							continue
+						}
+						td.Script = append([]string{line[:len(line)-1] + string(last+1)}, td.Script[1:]...)
+						p.Tasks[tn] = td
+						f.pipes[n] = p
+						editedPipe, editedTask, editedFile, want = n, tn, f.rel, p
+						break search
+					}
+				}
+			}
+			if editedPipe == "" {
+				return
+			}
+			if err := writeTree(root, files, rand.New(rand.NewSource(c.Seed+1)), order, nil); err != nil {
+				return
+			}
+			sameSize := true
+			for _, f := range files {
+				full := filepath.Join(root, f.rel)
+				if st, err := os.Stat(full); err == nil {
+					if b, ok := before[f.rel]; ok {
+						if st.Size() != b.size {
+							sameSize = false
+						}
+						_ = os.Chtimes(full, b.mod, b.mod)
+					}
+				}
+			}
+			again, err := definition.LoadRecursively(pattern)
+			res.Evaluations++
+			res.Situations = append(res.Situations, fmt.Sprintf("reload in the same process after an edit with preserved mtime (same size=%v)", sameSize))
+			if err != nil {
+				find("C17:valid-definitions-rejected", "second load in the same process after a one-character edit of %s: %v", editedFile, err)
+				return
+			}
+			want.SourcePath = filepath.Join(root, editedFile)
+			if d := samePipeline(want, again.Pipelines[editedPipe]); d != "" {
+				find("C17:loaded-definition-differs-from-file", "a second load in the same process ignores an edit of task %s in pipeline %s (%s) that kept the file's size (%v) and modification time: %s", editedTask, editedPipe, editedFile, sameSize, d)
+			}
+			if got.Equals(*again) {
+				find("C17:edit-not-detected-by-equals", "the definitions loaded before and after an edit of task %s in pipeline %s (%s, modification time preserved) compare equal", editedTask, editedPipe, editedFile)
+			}
+		}()
 	case 1: // single-constraint corruption: must fail
 		kinds := []string{"concurrency -1", "concurrency -7", "queue_limit -1", "start_delay -1s", "delay with queue_limit 0", "dependency on missing task", "dependency on another pipeline's task", "unknown strategy", "duplicate name in another file", "unparsable yaml", "dependency with empty name", "dependency that is a YAML null", "start_delay -1s with queue_limit", "dependency on missing task beside valid ones", "concurrency -1 in a later pipeline of the file", "verbatim duplicate in another file"}
 		kind := kinds[(c.Idx/3)%len(kinds)]
